@@ -50,7 +50,7 @@ func (e *Eng) configure() error {
 			el := strings.TrimSuffix(strings.TrimPrefix(c.Sort, "(Array Int "), ")")
 			e.consts[comp] = fmt.Sprintf("((as const (Array Int %s)) %s)", el, val)
 		case "guardrule":
-			// guardrule NAME [tags] comps=A,B [elem] EXPR
+			// guardrule NAME [tags] comps=A,B [elem] [funcs=F,G] EXPR
 			name, r2 := splitHead(rest)
 			g := &GuardRule{Name: name, Comps: map[string]bool{}}
 			r2 = strings.TrimSpace(r2)
@@ -73,6 +73,14 @@ func (e *Eng) configure() error {
 				}
 				if w == "elem" {
 					g.Elem = true
+					r2 = r3
+					continue
+				}
+				if strings.HasPrefix(w, "funcs=") {
+					g.Funcs = map[string]bool{}
+					for _, fn := range strings.Split(strings.TrimPrefix(w, "funcs="), ",") {
+						g.Funcs[fn] = true
+					}
 					r2 = r3
 					continue
 				}
